@@ -24,22 +24,23 @@ ASSUMPTIONS = [
     'scoping oracle: language reference 4.2 (naming and binding), 6.2.4 (comprehensions), 6.12 / PEP 572 (assignment expressions), 8.7-8.8 '
     '(function and class definitions): hand-written table spec_scope below (trusted; cross-checked boundedly by the rename sweep)',
     'python 3.12 type parameters live in an annotation scope of their own; the package analyses them in the enclosing namespace and pins '
-    'their names module-wide, which is conservative',
+    'their names module-wide. That is not conservative for reads next to the generic definition: the table below states the language rule and the '
+    'obligation <K>.type_params-not-bound-in-the-enclosing-namespace is refuted on the pinned tree (open known finding KF-26)',
     'ast.iter_child_nodes(node) yields exactly the child nodes of node',
 ]
 
-ENCLOSING, OWN = 'enclosing', 'own'
+ENCLOSING, OWN, ANNOTATION_SCOPE = 'enclosing', 'own', 'annotation scope'
 
 
 def spec_scope(kind, field):
     """Where the child in `field` of a node of class `kind` is evaluated / bound, relative to the node: 'own' (the new namespace the node
     opens), 'enclosing' (the namespace the node itself sits in), or 'same' for nodes that open no namespace."""
     if kind in ('FunctionDef', 'AsyncFunctionDef'):
-        return {'body': OWN, 'args': OWN, 'decorator_list': ENCLOSING, 'returns': ENCLOSING, 'type_params': ENCLOSING}.get(field)
+        return {'body': OWN, 'args': OWN, 'decorator_list': ENCLOSING, 'returns': ENCLOSING, 'type_params': ANNOTATION_SCOPE}.get(field)
     if kind == 'Lambda':
         return {'body': OWN, 'args': OWN}.get(field)
     if kind == 'ClassDef':
-        return {'body': OWN, 'bases': ENCLOSING, 'keywords': ENCLOSING, 'decorator_list': ENCLOSING, 'type_params': ENCLOSING}.get(field)
+        return {'body': OWN, 'bases': ENCLOSING, 'keywords': ENCLOSING, 'decorator_list': ENCLOSING, 'type_params': ANNOTATION_SCOPE}.get(field)
     if kind in COMP:
         return {'elt': OWN, 'key': OWN, 'value': OWN, 'generators': 'comprehension'}.get(field)
     if kind == 'Module':
@@ -209,6 +210,12 @@ def task_add_parent():
                 ctx.check(name + '/%s.%s-in-the-new-namespace' % (K, field), ns == root, kind='post', detail='mapped to %r' % (ns,))
             elif sp == ENCLOSING:
                 ctx.check(name + '/%s.%s-in-the-enclosing-namespace' % (K, field), ns == enclosing, kind='post', detail='mapped to %r' % (ns,))
+            elif sp == ANNOTATION_SCOPE:
+                # language reference 4.2.2 / PEP 695: type parameters are bound in an annotation scope that only the generic definition sees;
+                # they are NOT names of the namespace the definition sits in
+                ctx.check(name + '/%s.%s-not-bound-in-the-enclosing-namespace' % (K, field), ns != enclosing, kind='post',
+                          detail='type parameters mapped to %r, the namespace that contains the generic definition: a read of the same name next to the '
+                                 'definition resolves to the type parameter' % (ns,))
             elif sp is None:
                 ctx.check(name + '/%s.%s-has-a-scoping-rule' % (K, field), False, kind='total')
         # global / nonlocal declarations are recorded on the namespace the statement sits in
